@@ -90,3 +90,29 @@ pub fn mat_spec(ty: Ty, tier: Tier, maxdim: u8) -> BoxedStrategy<MatSpec> {
         prop_oneof![3 => planted, 2 => random]
     }).boxed()
 }
+
+/// a unimodular matrix with its exact inverse, as a product of elementary operations
+/// (kind, i, j, c): 0 row_j += c row_i, 1 swap rows i j, 2 row_i *= unit_j
+pub fn unimodular(k: RK, n: usize, ops: &[(u8, u8, u8, i8)]) -> (RM, RM) {
+    let mut u = RM::id(k, n);
+    let mut ui = RM::id(k, n);
+    if n == 0 { return (u, ui) }
+    let units = k.units();
+    for (kind, i, j, c) in ops {
+        let (i, j) = (*i as usize % n, *j as usize % n);
+        match kind % 3 {
+            0 if i != j => {
+                let cv = k.from_i64(*c as i64);
+                // U <- E U with E = I + c e_j e_i^T ;  U^-1 <- U^-1 E^-1 = U^-1 (I - c e_j e_i^T): col_i -= c col_j
+                for t in 0..n { u.a[j][t] = k.add(&u.a[j][t], &k.mul(&cv, &u.a[i][t])); }
+                for t in 0..n { ui.a[t][i] = k.sub(&ui.a[t][i], &k.mul(&cv, &ui.a[t][j])); }
+            }
+            1 => { u.a.swap(i, j); for row in ui.a.iter_mut() { row.swap(i, j); } }
+            2 => { if let Some(us) = &units { let un = &us[(j + *c as u8 as usize) % us.len()]; let uinv = k.inv(un).unwrap();
+                for t in 0..n { u.a[i][t] = k.mul(un, &u.a[i][t]); ui.a[t][i] = k.mul(&ui.a[t][i], &uinv); } } }
+            _ => {}
+        }
+    }
+    debug_assert!(u.mul(&ui).is_id());
+    (u, ui)
+}
